@@ -271,13 +271,15 @@ def receiveFrame (rf : RFrame) : CM (List Event) := fun c =>
     | .h2 cls code esid evs =>
       if cls.isSub .StreamClosedError then
         if closedByReset c (esid.getD 0) then
-          match prepareForSending [Frame.rstStream (esid.getD 0) (code.getD 0)] c with
+          match (do connInput .SEND_RST_STREAM
+                    prepareForSending [Frame.rstStream (esid.getD 0) (code.getD 0)] : CM Unit) c with
           | (.ok _, c) => (.ok evs, c)
           | (.error e, c) => (.error e, c)
         else (.error e, c)
       else if cls.isSub .StreamIDTooLowError then
         if closedByReset c (esid.getD 0) then
-          match prepareForSending [Frame.rstStream (esid.getD 0) ErrorCodes.STREAM_CLOSED] c with
+          match (do connInput .SEND_RST_STREAM
+                    prepareForSending [Frame.rstStream (esid.getD 0) ErrorCodes.STREAM_CLOSED] : CM Unit) c with
           | (.ok _, c) => (.ok [], c)
           | (.error e, c) => (.error e, c)
         else if closedByEnd c (esid.getD 0) then (.error (mkStreamClosed (esid.getD 0)), c)
